@@ -48,6 +48,18 @@ void specialise(vh::Rng& r, const Sol& s, Draw& d, const std::vector<std::string
     }
     if (!what.empty()) return;
   }
+  // one wave number per direction (all a_*x equal, all a_*y equal, ...), or every sign-free parameter equal to one value
+  if (r.below(10) == 0) {
+    bool all = r.below(3) == 0;
+    std::map<char, long double> per;
+    long double one = r.pm(0.3L, 3.0L);
+    for (auto& n : el) {
+      if (ok(n) != 2) continue;
+      if (n.rfind("a_", 0) == 0 && n.size() > 3) { char c = n.back(); if (!per.count(c)) per[c] = all ? one : (r.coin() ? (long double)(1 + r.below(4)) : r.pm(0.3L, 3.0L)); d.set(n, per[c]); what += n + "=k" + c + " "; }
+      else if (all) { d.set(n, one); what += n + "=same "; }
+    }
+    if (!what.empty()) return;
+  }
   // ratio of specific heats next to 1 (admissible: Gamma != 1), where 1/(Gamma-1) is large
   if (s.stretch != 0 && r.below(8) == 0) for (auto& n : names) if (n == "Gamma" || n == "gamma") { d.set(n, 1.0L + r.sgn() * powl(2.0L, -(long double)(8 + r.below(40)))); what += n + "~1 "; }
   int k = 1 + r.below(3);
